@@ -1435,6 +1435,16 @@ func (c *compiler) compileArray(e *Array) error {
 			(i < l-1 && c.codes[pc+i*2+l+1].op != opjump) {
 			return nil
 		}
+		if i < l-1 {
+			// each constant should be followed by a jump to opappend
+			j := pc + i*2 + l + 1
+			for c.codes[j].op == opjump {
+				j = c.codes[j].v.(int)
+			}
+			if j != len(c.codes)-4 {
+				return nil
+			}
+		}
 	}
 	v := make([]any, l)
 	for i := range l {
